@@ -656,7 +656,8 @@ def map_bodies(t, f):
 class Unflatten:
     """Turn a flat template (genprog node list) into a family whose hand-flattening is that template."""
 
-    def __init__(self, rng, uid, names, p_block=0.5, p_include=0.2, max_levels=3, allow_fill_segments=True):
+    def __init__(self, rng, uid, names, p_block=0.5, p_include=0.2, max_levels=3, allow_fill_segments=True,
+                 skip_slot_bodies=False, skip_comp_bodies=False):
         self.r = rng
         self.uid = uid
         self.names = names            # callable: () -> fresh block name (unique within this family)
@@ -668,6 +669,21 @@ class Unflatten:
         self.ninc = 0
         self.stats = set()
         self.allow_fill_segments = allow_fill_segments
+        self.skip_slot_bodies = skip_slot_bodies
+        self.skip_comp_bodies = skip_comp_bodies
+
+    def descend(self, t, level):
+        """unflatten inside the child node lists of t - except where a knob says no, and never inside the body of a loop
+        that produces fills (the same fill body then serves several slots; with the `default` alias one of them can be
+        rendered inside the other, i.e. a block would be entered while it is being rendered - Django's BlockContext has
+        no meaning for that, and no template without components can do it)"""
+        if (t[0] == "slot" and self.skip_slot_bodies) or (t[0] == "comp" and self.skip_comp_bodies):
+            return t
+        if t[0] == "for" and self.has_free_fill(t[3]):
+            return t
+        if t[0] == "fill" and t[1][0] != "str":
+            return t
+        return map_bodies(t, lambda b: self.walk(b, level))
 
     def junk(self):
         return [("text", self.r.choice(["JUNK", "junk!", "<j>"]))] + ([("out", ("var", "p1"))] if self.r.random() < 0.3 else [])
@@ -712,7 +728,7 @@ class Unflatten:
                 j = r.randint(i + 1, min(n, i + 3))
                 seg = ts[i:j]
                 if self.blank(seg) or (not self.allow_fill_segments and self.has_free_fill(seg)):
-                    out.append(map_bodies(ts[i], lambda b: self.walk(b, level)))
+                    out.append(self.descend(ts[i], level))
                     i += 1
                     continue
                 out.extend(self.block(seg, level))
@@ -723,15 +739,20 @@ class Unflatten:
                 if self.has_free_fill(seg):
                     seg, j = ts[i:i + 1], i + 1
                 if self.blank(seg):
-                    out.append(map_bodies(ts[i], lambda b: self.walk(b, level)))
+                    out.append(self.descend(ts[i], level))
                     i += 1
                     continue
                 out.append(self.include(seg))
                 i = j
             else:
-                out.append(map_bodies(ts[i], lambda b: self.walk(b, level)))
+                out.append(self.descend(ts[i], level))
                 i += 1
         return out
+
+    def opaque(self, seg):
+        """segment that must stay as it is (see descend)"""
+        return any((t[0] == "for" and self.has_free_fill(t[3])) or (t[0] == "fill" and t[1][0] != "str")
+                   or (t[0] == "slot" and self.skip_slot_bodies) or (t[0] == "comp" and self.skip_comp_bodies) for t in seg)
 
     def include(self, seg):
         self.ninc += 1
@@ -744,7 +765,8 @@ class Unflatten:
             self.stats.add("include-with")
         # the included template may itself be a family
         if self.r.random() < 0.3:
-            sub = Unflatten(self.r, "%s_i%d" % (self.uid, self.ninc), self.names, self.p_block, 0.0, 3, self.allow_fill_segments)
+            sub = Unflatten(self.r, "%s_i%d" % (self.uid, self.ninc), self.names, self.p_block, 0.0, 3, self.allow_fill_segments,
+                            self.skip_slot_bodies, self.skip_comp_bodies)
             fam = sub.run(list(seg))
             self.inc.update(sub.inc)
             self.stats.add("include-family")
@@ -1021,7 +1043,86 @@ def shares_block_context(fp):
     return None
 
 
-def make_family_program(rng, prog, uid, collide=False, which=None):
+def _has_block(ts):
+    for t in ts:
+        if t[0] == "block":
+            return True
+        if any(_has_block(t[i]) for i in BODY_IDX.get(t[0], ())):
+            return True
+    return False
+
+
+def slot_layer_class(fp):
+    """Trigger class c10-slot-render-layer (decided on the program text only): a {% block %} tag whose content is rendered
+    through a slot on a render-context layer chosen by POSITION (`render_context.dicts[-2]`, slots.py) -
+      (i)  a block tag written inside the default content of a {% slot %} tag, or
+      (ii) a block tag written inside the body of a component tag whose component has a `deep` slot: a slot tag inside an
+           included template, inside another slot's content, or inside the body of a component tag."""
+    lib = {c: fam for c, fam, _ in fp["lib"]}
+    fams = [fp["page"]] + list(lib.values()) + list(fp["inc"].values())
+
+    def slot_with_block(ts):
+        for t in ts:
+            if t[0] == "slot" and _has_block(t[5]):
+                return True
+            if any(slot_with_block(t[i]) for i in BODY_IDX.get(t[0], ())):
+                return True
+        return False
+    for f in fams:
+        if any(slot_with_block(tt) for tt in f["chain"] + [f["root"]]):
+            return "block-in-slot-default"
+
+    def includes_of(ts, acc):
+        for t in ts:
+            if t[0] == "include" and t[1] not in acc:
+                acc.add(t[1])
+                f = fp["inc"].get(t[1])
+                if f:
+                    for tt in f["chain"] + [f["root"]]:
+                        includes_of(tt, acc)
+            for i in BODY_IDX.get(t[0], ()):
+                includes_of(t[i], acc)
+        return acc
+
+    def any_slot(ts):
+        return any(t[0] == "slot" or any(any_slot(t[i]) for i in BODY_IDX.get(t[0], ())) for t in ts)
+
+    def nested_slot(ts, inside):
+        for t in ts:
+            if t[0] == "slot" and inside:
+                return True
+            for i in BODY_IDX.get(t[0], ()):
+                if nested_slot(t[i], inside or t[0] in ("slot", "comp")):
+                    return True
+        return False
+    deep = set()
+    for c, fam in lib.items():
+        tpls = fam["chain"] + [fam["root"]]
+        incs = set()
+        for tt in tpls:
+            includes_of(tt, incs)
+        inc_tpls = [tt for n in incs if n in fp["inc"] for tt in fp["inc"][n]["chain"] + [fp["inc"][n]["root"]]]
+        if any(any_slot(tt) for tt in inc_tpls) or any(nested_slot(tt, False) for tt in tpls):
+            deep.add(c)
+
+    def block_in_body(ts):
+        for t in ts:
+            if t[0] == "comp" and t[1] in deep and _has_block(t[4]):
+                return t[1]
+            for i in BODY_IDX.get(t[0], ()):
+                r = block_in_body(t[i])
+                if r:
+                    return r
+        return None
+    for f in fams:
+        for tt in f["chain"] + [f["root"]]:
+            r = block_in_body(tt)
+            if r:
+                return "block-in-fill-of-deep-slot:%s" % r
+    return None
+
+
+def make_family_program(rng, prog, uid, collide=False, which=None, knobs=None):
     """genprog program -> family program (same meaning after hand-flattening)."""
     counter = [0]
     pool = ["body", "main", "side", "extra", "head", "foot", "nav", "aside"]
@@ -1048,7 +1149,11 @@ def make_family_program(rng, prog, uid, collide=False, which=None):
     def fam_of(key, ts):
         if key not in which:
             return {"chain": [], "root": list(ts)}
-        u = Unflatten(rng, "%s_%s" % (uid, key), names_for(key), p_block=rng.choice([0.3, 0.5, 0.7]), p_include=rng.choice([0.0, 0.15, 0.3]))
+        kn = dict(knobs or {})
+        if key == "page":
+            kn.pop("skip_slot_bodies", None)
+        u = Unflatten(rng, "%s_%s" % (uid, key), names_for(key), p_block=rng.choice([0.3, 0.5, 0.7]),
+                      p_include=kn.pop("p_include", rng.choice([0.0, 0.15, 0.3])), **kn)
         fam = u.run(list(ts))
         inc.update(u.inc)
         stats.update(u.stats)
@@ -1099,10 +1204,35 @@ def worker_comp(spec):
     from django.template.loader import get_template
     djsetup.patch_ids()
     ID_RE = re.compile(r" data-djc-id-[0-9a-zA-Z]+(=\"\")?")
+    import signal
+
+    def outcome_of(fn, limit=12.0):
+        """core_run.outcome_of with a longer, repeating watchdog (an alarm that lands inside a callback whose exceptions
+        are ignored must not leave a looping render running)"""
+        old = sys.getrecursionlimit()
+        signal.signal(signal.SIGALRM, core_run._alarm)
+        signal.setitimer(signal.ITIMER_REAL, limit, 0.5)
+        try:
+            return ("ok", core_run.canon(fn()))
+        except core_run.RenderTimeout:
+            return ("err", "other:Timeout")
+        except RecursionError:
+            return ("err", "other:RecursionError")
+        except Exception as e:  # noqa
+            return ("err", core_run.ERRMAP.get(type(e).__name__, "other:" + type(e).__name__))
+        finally:
+            signal.setitimer(signal.ITIMER_REAL, 0)
+            sys.setrecursionlimit(old)
 
     def run_flat(prog):
         djsetup.reset_ids()
-        o = core_run.render_page(prog)
+        with djsetup.components_settings(context_behavior=prog["mode"]):
+            classes, cleanup = core_run.build(prog, False)
+            try:
+                src = d_nodes(prog["page"])
+                o = outcome_of(lambda: Template(src).render(Context(dict(prog["ctx"]))))
+            finally:
+                cleanup()
         return (o[0], ID_RE.sub("", o[1])) if o[0] == "ok" else o
 
     def run_family(fp, page_named, leaf_named):
@@ -1140,7 +1270,7 @@ def worker_comp(spec):
                     if page_leaf is not None:
                         return get_template(page_leaf).render(dict(fp["ctx"]))
                     return Template(page_src).render(Context(dict(fp["ctx"])))
-                o = core_run.outcome_of(go)
+                o = outcome_of(go)
             finally:
                 cleanup()
         return (o[0], ID_RE.sub("", o[1])) if o[0] == "ok" else o
